@@ -233,31 +233,31 @@ def aFinalize (inner : Inner) (cfg : NCfg) (x : Ctx) (a : ASt) (l : List Item) :
   | some (_, a', l') => some (a', l')
   | none => none
 
-/-- one event, processed now: body, handlers iff registered, finalize, outcome -/
-def aTriggerEvent (inner : Inner) (cfg : NCfg) (x : Ctx) (ev : Nat) : Acc Bool := fun a l =>
+/-- the `try:` part and the `except BaseException:` clause of one event: what comes out is the event's outcome.
+Without handlers the failure of the body stands; with handlers they run — each once, in order, shown the
+configuration the failure left — and the event returns `event_data.result` normally, unless a handler raises: then
+that exception is the outcome. -/
+def aHandled (inner : Inner) (cfg : NCfg) (x : Ctx) (ev : Nat) : Acc Bool := fun a l =>
   match aBody inner cfg x ev { a with result := none, exited := [] } l with
   | none => none
-  | some (.ok b, a1, l1) =>
-    match aFinalize inner cfg x a1 l1 with
-    | some (a2, l2) => some (.ok b, a2, l2)
-    | none => none
+  | some (.ok b, a1, l1) => some (.ok b, a1, l1)
   | some (.fail e, a1, l1) =>
     match cfg.onException with
-    | [] =>
-      match aFinalize inner cfg x a1 l1 with
-      | some (a2, l2) => some (.fail e, a2, l2)
-      | none => none
+    | [] => some (.fail e, a1, l1)
     | hs =>
       match aCallbacks inner cfg .onException x hs a1 l1 with
       | none => none
-      | some (.ok _, a2, l2) =>
-        match aFinalize inner cfg x a2 l2 with
-        | some (a3, l3) => some (.ok (a2.result.getD false), a3, l3)
-        | none => none
-      | some (.fail e2, a2, l2) =>
-        match aFinalize inner cfg x a2 l2 with
-        | some (a3, l3) => some (.fail e2, a3, l3)
-        | none => none
+      | some (.ok _, a2, l2) => some (.ok (a2.result.getD false), a2, l2)
+      | some (.fail e2, a2, l2) => some (.fail e2, a2, l2)
+
+/-- one event, processed now: outcome fixed by `aHandled`, then the finalize stage, which cannot change it -/
+def aTriggerEvent (inner : Inner) (cfg : NCfg) (x : Ctx) (ev : Nat) : Acc Bool := fun a l =>
+  match aHandled inner cfg x ev a l with
+  | none => none
+  | some (o, a1, l1) =>
+    match aFinalize inner cfg x a1 l1 with
+    | some (a2, l2) => some (o, a2, l2)
+    | none => none
 
 /-- the queue of a `queued=True` machine is drained event by event; a failure clears it -/
 def aDrain (inner : Inner) (cfg : NCfg) : Nat → Acc Unit
@@ -311,9 +311,10 @@ def aHistory (cfg : NCfg) (qmax fuel : Nat) : Nat → ASt → List Item → Nat 
     | some (_, a', l') => aHistory cfg qmax fuel n a' l' (k + 1)
     | none => (k, false, a)
 
-/-- what the driver answers for a recorded trace that starts in configuration `conf` -/
-def checkTrace (cfg : NCfg) (conf : Forest) (l : List Item) : Bool :=
-  (aHistory cfg (l.length + 1) (l.length + 1) l.length { conf } l 0).2.1
+/-- what the driver answers for a recorded trace that starts in configuration `conf` on an idle machine; `qmax` /
+`fuel` are the bounds of the experiment (queue items processed by one call, nesting depth of re-entrant calls) -/
+def checkTrace (cfg : NCfg) (qmax fuel : Nat) (conf : Forest) (l : List Item) : Bool :=
+  (aHistory cfg qmax fuel l.length { conf } l 0).2.1
 
 end C04N
 end TM
